@@ -6,6 +6,7 @@ stored-byte or device faults, readGraph / <Class>.from_file; the in-house
 formats are compared with three-valued reference readers, gml/dot with the
 exception contract only.
 """
+import re
 import sys
 
 import cnfgen
@@ -294,7 +295,8 @@ def generate(rng, config):
             gtype = "bipartite"
         elif fmt == "dimacs" and gtype == "bipartite":
             gtype = "simple"
-        case = {"type": gtype, "format": fmt, "text": _gen_text(rng, fmt),
+        case = {"type": gtype, "format": fmt,
+                "text": _gen_text(rng, fmt, gtype),
                 "load": _gen_load(rng, fmt), "faults": []}
         if rng.random() < 0.3:
             case["hops"] = [rng.choice(FORMATS[gtype])]
@@ -346,6 +348,7 @@ def _gen_load(rng, fmt):
     return {"how": rng.choice(["file", "file", "stream", "from_file",
                                "from_file_stream", "spec", "spec"]),
             "explicit": rng.random() < 0.5,
+            "newline": rng.choice([None, None, "\n", ""]),
             "chunk": rng.choice([None, None, 1, 2, 3, 7]),
             "as_dag": rng.random() < 0.3}
 
@@ -362,7 +365,49 @@ MTOK = ["2 2", "1 1", "0 0", "2 3", "1 0", "0 1", "1", "0", "1 1 0", "# c",
         "", " ", "2", "x", "1 # c", "-1 2", "0 1 1", "3", "1 0 1 0"]
 
 
-def _gen_text(rng, fmt):
+def _valid_lines(rng, fmt, gtype):
+    """The lines of a small well-formed file, comments included."""
+    if fmt == "matrix":
+        L, R = rng.randint(1, 3), rng.randint(1, 3)
+        lines = ["%d %d" % (L, R)] + [
+            " ".join(rng.choice("01") for _ in range(R)) for _ in range(L)]
+    elif fmt == "dimacs":
+        n = rng.randint(1, 4)
+        es = [(u, v) for u in range(1, n + 1) for v in range(u + 1, n + 1)
+              if rng.random() < 0.5]
+        lines = ["p edge %d %d" % (n, len(es))] + ["e %d %d" % e for e in es]
+    elif gtype == "bipartite":
+        L, R = rng.randint(1, 3), rng.randint(1, 3)
+        lines = ["%d" % (L + R)] + [
+            "%d : %s0" % (u, "".join("%d " % (L + v) for v in range(1, R + 1)
+                                     if rng.random() < 0.5))
+            for u in range(1, L + 1)]
+    else:
+        n = rng.randint(1, 4)
+        es = [(u, v) for u in range(1, n + 1) for v in range(u + 1, n + 1)
+              if rng.random() < 0.5]
+        lines = ["%d" % n]
+        for v in range(1, n + 1):
+            nb = [a for a, b in es if b == v]
+            if gtype == "simple":
+                nb += [b for a, b in es if a == v]
+            lines.append("%d : %s0" % (v, "".join("%d " % x
+                                                  for x in sorted(nb))))
+    for _ in range(rng.choice([0, 1, 1, 2])):
+        lines.insert(rng.randrange(1, len(lines) + 1),
+                     rng.choice(["c a note", "c", "c 1 : 2 0"]
+                                if fmt != "matrix" else [""]))
+    return lines
+
+
+def _gen_text(rng, fmt, gtype="simple"):
+    if rng.random() < 0.3:
+        lines = _valid_lines(rng, fmt, gtype)
+        r = rng.random()
+        eol = "\n" if r < 0.5 else "\r\n" if r < 0.65 else "\r" if r < 0.8 \
+            else None
+        return "".join(l + (eol or rng.choice(["\n", "\r\n", "\r"]))
+                       for l in lines)
     toks = {"kthlist": KTOK, "dimacs": DTOK, "matrix": MTOK}[fmt]
     k = rng.choice([0, 1, 2, 3, 4, 6, 9])
     lines = [rng.choice(toks) for _ in range(k)]
@@ -373,7 +418,13 @@ def _gen_text(rng, fmt):
         lines.insert(0, rng.choice(["p edge 3 2", "p edge 3 1",
                                     "p edge 3 0"]))
     end = rng.choice(["\n", "\n", ""])
-    return "\n".join(lines) + end
+    r = rng.random()
+    if r < 0.8:
+        return "\n".join(lines) + end
+    # line ends of another convention (dos, old mac), or a mixture
+    eol = "\r\n" if r < 0.87 else "\r" if r < 0.94 else None
+    return "".join(l + (eol or rng.choice(["\n", "\r\n", "\r"]))
+                   for l in lines)
 
 
 # ---------------------------------------------------------------------------
@@ -473,14 +524,22 @@ def _load(data, case, fs, ctx, gtype, plan_extra=None):
         if how == "file":
             fs.put(name, data, plan=plan)
             return call(readGraph, name, gtype, ffmt)
+        # (which characters end a line is a property of the stream:
+        # universal newlines for open(), LF alone for the standard input
+        # of a POSIX process and for io.StringIO)
+        newline = ld.get("newline")
+        if how in ("stream", "from_file_stream") and newline is not None:
+            ctx.fault("stream_without_universal_newlines")
         if how == "stream":
-            st = text_reader(data, name=name, plan=plan, on_fire=ctx.fault)
+            st = text_reader(data, name=name, plan=plan, on_fire=ctx.fault,
+                             newline=newline)
             return call(readGraph, st, gtype, ffmt)
         if how == "from_file":
             fs.put(name, data, plan=plan)
             return call(klass.from_file, name,
                         fmt if ld["explicit"] else None)
-        st = text_reader(data, name=name, plan=plan, on_fire=ctx.fault)
+        st = text_reader(data, name=name, plan=plan, on_fire=ctx.fault,
+                         newline=newline)
         return call(klass.from_file, st, fmt if ld["explicit"] else None)
     finally:
         sys.stdout = saved
@@ -582,6 +641,9 @@ def _reference(data, fmt, gtype, case=None):
     return None
 
 
+_LONE_CR = re.compile(rb"\r(?!\n)")
+
+
 def _judge(data, res, ctx, fmt, gtype, where, eio=False, case=None):
     def bad(clause, detail):
         raise Violation("C14/%s/%s/%s" % (clause, fmt, gtype),
@@ -628,6 +690,11 @@ def _judge(data, res, ctx, fmt, gtype, where, eio=False, case=None):
         # dot with subgraphs: "a graph consistent with the text or
         # ValueError" - the reader may decline what it does not support
         ctx.probe("dot text with subgraphs declined")
+        return
+    if res[0] == "exc" and _LONE_CR.search(data):
+        # a line ended by CR alone (old Mac): a reader may decline it, it
+        # must not read it in two ways
+        ctx.probe("text with a lone CR declined")
         return
     if res[0] == "exc":
         bad("valid-text-rejected", "reference reader accepts %r but %r was "
